@@ -1,7 +1,6 @@
 package rules
 
 import (
-	"path/filepath"
 	"regexp"
 	"sort"
 	"strconv"
@@ -82,8 +81,10 @@ func (f *FC) tinyEligible(fn *ir.Func) bool {
 	if tinyNoFilter {
 		return true
 	}
-	base, has := baselineFuncs[filepath.Base(f.M.Dir)]
-	if !has || !base[fn.Name] || filepath.Base(f.M.Dir) != "fc" {
+	if !strings.HasSuffix(f.Path, "/fc") {
+		return true
+	}
+	if base, has := baselineFuncs["fc"]; !has || !base[fn.Name] {
 		return true
 	}
 	return c01ReviewedTiny[fn.Name]
